@@ -212,6 +212,26 @@ ENTRIES = {
              "empty-iteration-directory defect found here was repaired in /repo (fix: 77b0dc7; witness in corpus/C19). KNOWN FINDING "
              "prospective-marker-before-selection (KNOWN_FINDINGS.json): not repaired because a repair changes what counts as a completed step "
              "and cannot be validated without nextflow. Trusted: Coq kernel, extraction, driver, harness, the fake."),
+    "C11": dict(
+        text="Theorems (all screens, every shipped generator/smoother, all parameter values, every oracle answer): generators conserve the "
+             "unobserved experiments up to plate label, smoothers return a sub-multiset, the observed part passes through unchanged; the hold-out "
+             "split is a partition including plate labels and masks, with exactly ceil(fraction*size) rows of each unobserved plate and none of "
+             "the others under numpy's choice contract. Tied to the code by running the extracted model and the real classes on the same cases "
+             "with every rng / heappop / argsort answer recorded and replayed; full row lists compared exactly.",
+        note="Trusted: Coq kernel, extraction, OCaml driver, Python harness including the recording Generator wrapper; numpy permutation/choice, "
+             "heapq and argsort enter as oracle answers whose contract is checked on every run; Screen constructor reduced to the plate-uniform "
+             "check; ids modelled as ranks of names; ceil(size*fraction) exact for dyadic fractions, Python's value otherwise."),
+    "C13": dict(
+        text="One theorem per clause: single-sample and <= max plates (SampleSegregating), single-sample plates (Pairwise), sparse cover covers "
+             "every sample and treatment with one unobserved plate, combination filter exact, common size (Fixed/Optimal) and optimality of the "
+             "optimal size, per-sample minimum (NPlatePerCellLine), merges within one sample, MergeMin stop rule, TopBottom halving, for all "
+             "screens, parameters and oracle answers for which the operation returns. The pre-repair logic of the two classes found defective is "
+             "kept behind a model switch and refuted by witnesses. Tied to the code by the same recorded-randomness correspondence as C11 plus "
+             "each shape clause evaluated on the real output.",
+        note="Same trusted base as C11; heapq is modelled by its contract, not its array layout; no bound on SparseCover iterations is stated (the "
+             "model recurses on the recorded answers). The two defects found here (SampleSegregating lumped small samples into plate ''; "
+             "NPlatePerCellLine used stale sample ids) were repaired in /repo (fix: e3ac1df, fix: e05a1b9); the harness detects which variant "
+             "the tree implements; both witnesses are corpus cases."),
 }
 PENDING = "check not built yet in this round; planned in DESIGN.md section 5 (no property is inapplicable in principle)"
 NOT_APPLICABLE = {p: PENDING for p in ["C%02d" % i for i in range(1, 21)] if p not in ENTRIES}
